@@ -172,6 +172,7 @@ func c04Healthy(r *rng, id string) {
 }
 
 func TestC04(t *testing.T) {
+	forCases(6, 43, "x", func(i int, r *rng, id string) { lockStir("C04", r, id) })
 	n := envInt("VERIF_N", 60)
 	if thorough() {
 		n = envInt("VERIF_N", 4000)
